@@ -54,16 +54,15 @@ Qed.
 
 (* ------------------------------------------------------------------ invariant and abstraction of the model *)
 (* representation invariant of a memory: the cell-level invariant, and every occupied cell lies
-   in the u64 address space, strictly below its last address (`address + bytes` is computed
-   unchecked by `store`, so a stored value never reaches 2^64) *)
+   in the u64 address space (so a stored value ends at 2^64 at the latest) *)
 Definition InvM (m : cmem) : Prop :=
-  Inv (load_cell m) /\ forall x, load_cell m x <> None -> 0 <= x < 2^64 - 1.
-Lemma InvM_range (m : cmem) : InvM m -> forall b v, load_cell m b = Some (CVal v) -> 0 <= b /\ b + vk v < 2^64.
+  Inv (load_cell m) /\ forall x, load_cell m x <> None -> 0 <= x < 2^64.
+Lemma InvM_range (m : cmem) : InvM m -> forall b v, load_cell m b = Some (CVal v) -> 0 <= b /\ b + vk v <= 2^64.
 Proof.
   intros [[I1 I2] D] b v E. destruct (I2 b v E) as [(Hk & _) Hfill].
-  assert (Hb: 0 <= b < 2^64 - 1) by (apply D; rewrite E; discriminate).
+  assert (Hb: 0 <= b < 2^64) by (apply D; rewrite E; discriminate).
   destruct (Z.eq_dec (vk v) 1) as [E1|N1]; [lia|].
-  assert (Hl: 0 <= b + vk v - 1 < 2^64 - 1) by (apply D; rewrite (Hfill (b + vk v - 1)) by lia; discriminate).
+  assert (Hl: 0 <= b + vk v - 1 < 2^64) by (apply D; rewrite (Hfill (b + vk v - 1)) by lia; discriminate).
   lia.
 Qed.
 (* the byte array a memory denotes *)
